@@ -85,6 +85,11 @@ func c09(r *Report) propMeta {
 
 	// eligibility = active with a queued nonce: the DE queue arithmetic of C05 decides who is eligible
 	r.Include("C05", "C05.R4")
+	// the eligible set is collected by walking ALL bonded validators / stored members: store-iterator loops and
+	// Iterate… callbacks of the two modules run to exhaustion (seed C09-9: the callback returned `true` for an inactive
+	// validator, which stops the walk instead of skipping the validator)
+	r.Include("C01", "C01.iter")
+	r.Include("C10", "C10.iter")
 
 	return propMeta{
 		Decided: []string{
@@ -92,6 +97,7 @@ func c09(r *Report) propMeta {
 			"R2 ChooseSome/ChooseOne/ChooseSomeMaxWeight never store into, append onto a re-slice of, copy into or sort memory that may alias the `weights` parameter, and every try receives that same parameter; one DRBG draw per pick; picked index removed from the remaining copy",
 			"R3 DRBG(seed = rolling seed, nonce = request id / signing nonce parameter, personalisation = chain id), SHA-256, 8-byte big-endian draws; signer selection is draw % (n-i), swap with position n-i-1, then sort by member id",
 			"R5 tss CreateGroup rejects an empty, an over-large and a member list with a repeated ACCOUNT (compared after decoding, so two spellings of one bech32 address count as one) before any member is stored: one participant cannot hold two seats of a committee (seed C09-5)",
+			"via C01.iter / C10.iter: every store-iterator loop of x/oracle, x/tss, x/bandtss runs until the iterator is exhausted and every callback handed to an Iterate… function always returns false (never stops): no eligible validator or member behind an ineligible one is dropped",
 			"R6 the determinism lint (E8, including writes to process-local memory held by keepers) over everything reachable from PrepareRequest / RequestSigning / InitiateNewSigningRound: the committee is a function of committed state only (seed C09-7: a params cache that survives rolled-back updates)",
 		},
 		Undecided: []string{"bit-for-bit conformance of the sampler to its specification and distinctness as a consequence of the arithmetic (needs an independent implementation over many inputs: another technique family) — the larger half of C09"},
